@@ -279,6 +279,9 @@ func symIntrinsic(fr *frame, fn *ssa.Function, args []value) (value, bool) {
 	case "verifSpawnSync":
 		fr.i.spawnSync = args[0].(bool)
 		return nil, true
+	case "verifPreemptAfterSend":
+		fr.i.preemptAfterSend = args[0].(bool)
+		return nil, true
 	case "verifCatch":
 		// run f; 0 = returned, 1 = os.Exit, 2 = panic
 		code := 0
